@@ -334,6 +334,16 @@ def _via_config(ctx, only=None):
                 got = {"x": cfg.x, "y": cfg.y, "sub": {"z": cfg.sub.z, "w": cfg.sub.w}}
                 # and back out through Config.dumps with the same options: the format object given the options decodes it
                 back = f.loads(None, cfg.dumps(fmt, **opts))
+                # ... and through Config.save with the same options: the file holds what dumps with the options produces
+                spath = os.path.join(ctx.tmp, "saved-with-options.cfg")
+                cfg.save(spath, fmt, **opts)
+                with open(spath, "rb") as fh:
+                    saved = fh.read()
+                if fmt != "pickle" and saved != cfg.dumps(fmt, **opts):
+                    ctx.violation("C04|via-config|%s|save-ignores-options" % row, "%s: Config.save(..., %s) wrote a document that differs from Config.dumps with the same options" % (row, opts), {"viaconfig": True, "only": ident, "job": "via-config"})
+                back_saved = f.loads(None, saved)
+                if not isinstance(back_saved, dict) or back_saved.get("y") != "parent":
+                    ctx.violation("C04|via-config|%s|saved-not-decodable" % row, "%s: the saved file is not decoded by a format object with the same options: %s" % (row, V.show(back_saved, 80)), {"viaconfig": True, "only": ident, "job": "via-config"})
             except Exception as exc:  # noqa
                 ctx.case(("via-config", row, where), "via-config:raises", True)
                 ctx.violation("C04|via-config|%s|raises-%s" % (row, type(exc).__name__),
@@ -344,6 +354,37 @@ def _via_config(ctx, only=None):
                 ctx.violation("C04|via-config|%s|mismatch" % row, "%s: loaded %s, expected %s" % (row, got, want), case)
             if not isinstance(back, dict) or back.get("y") != "parent":
                 ctx.violation("C04|via-config|%s|dumps-options" % row, "%s: Config.dumps with the options is not decoded by a format object with the same options: %s" % (row, V.show(back, 80)), case)
+    # documents of every encoded length over a full cycle of the low length byte, decoded through Config.loads (bytes and
+    # text) and through a file: nothing about a document's first or last bytes is "tidied" on the way to the decoder
+    if only is None or only == ["sizes"]:
+        s = cc.Schema()
+        s.k = cc.StringField()
+        s.n = cc.IntField()
+        for fmt in ("json", "yaml", "xml", "bson", "pickle"):
+            f = cc.ConfigFormat.get(fmt)
+            for n in range(0, 300):
+                for pad in ("x", " "):
+                    tree = {"k": pad * n + "y", "n": n}
+                    doc = f.dumps(None, tree)
+                    ctx.transitions += 1
+                    case = {"viaconfig": True, "only": ["sizes"], "job": "via-config"}
+                    try:
+                        cfg = s()
+                        cfg.loads(doc, fmt)
+                        got = {"k": cfg.k, "n": cfg.n}
+                        path = os.path.join(ctx.tmp, "sized.cfg")
+                        with open(path, "wb") as fh:
+                            fh.write(doc)
+                        cfg2 = s()
+                        cfg2.load(path, fmt)
+                        got2 = {"k": cfg2.k, "n": cfg2.n}
+                    except Exception as exc:  # noqa
+                        ctx.violation("C04|via-config|sizes|%s|raises-%s" % (fmt, type(exc).__name__), "a %s document of %d bytes (string of %d characters) raised %r in Config.loads / load" % (fmt, len(doc), n + 1, exc), case)
+                        break
+                    if got != tree or got2 != tree:
+                        ctx.violation("C04|via-config|sizes|%s|mismatch" % fmt, "a %s document of %d bytes decodes as %s / %s" % (fmt, len(doc), V.show(got, 60), V.show(got2, 60)), case)
+                        break
+            ctx.case(("via-config", "sizes", fmt), "via-config:sizes", True)
     ctx.traces += 1
 
 
